@@ -52,14 +52,39 @@ def main():
                 age = (f["ttl"] + 1) * (1 if f["fl"] == "a" else 1000)
                 cases.append((f, fill, ["age %d 0 %d" % (f["idx"], age)], call(f, 0), call(f, 0), pause, probes))
                 cases.append((f, fill, ["age %d 0 %d" % (f["idx"], age)], call(f, 0), call(f, L), pause, probes))
-    total = len(cases)
-    if a.count > 0 and a.count < total:
-        # keep the ttl cases and a seeded sample of the rest
-        idx = list(range(total))
+    special = []
+    allf = read_table(a.table)
+    # an expired lookup racing an evicting store that is parked inside its queue section (both directions)
+    for f in fns:
+        if f["ttl"]:
+            L = f["limit"] or 3
+            fill = [call(f, x) for x in range(L)]
+            age = (f["ttl"] + 1) * (1 if f["fl"] == "a" else 1000)
+            probes = [call(f, L + 2), call(f, 1)]
+            for pause in range(1, 7):
+                special.append((f, fill, ["age %d 0 %d" % (f["idx"], age)], call(f, L), call(f, 0), pause, probes))
+                special.append((f, fill, ["age %d 0 %d" % (f["idx"], age)], call(f, 0), call(f, L), pause, probes))
+                special.append((f, fill, ["age %d 0 %d" % (f["idx"], age)], "invw %d 1" % f["idx"], call(f, 0), pause, probes))
+    # an operation on all caches racing the FIRST call (registration) of a function never used before
+    fresh = [g for g in allf if g["fl"] != "t" and g["sig"] == 0 and not g["gates"] and g["ret"] == 0]
+    for n, f in enumerate(fns[:6]):
+        g = fresh[-(1 + n % 5)]
+        if g["idx"] == f["idx"]:
+            continue
+        L = f["limit"] or 3
+        fill = [call(f, x) for x in range(L)] + [call(fns[(n + 1) % len(fns)], 0)]
+        for A in ["invall", "tag t1", "invw %d 0" % f["idx"], "sget %d" % f["idx"], "invc %d" % f["idx"]]:
+            for pause in range(1, 6):
+                special.append((f, fill, [], A, call(g, 0), pause, [call(f, L + 2), call(g, 0)]))
+    total = len(cases) + len(special)
+    if a.count > 0 and a.count < len(cases):
+        # the special families are always kept; a seeded sample of the product enumeration
+        idx = list(range(len(cases)))
         picked = set()
-        while len(picked) < a.count:
-            picked.add(idx[r.below(total)])
+        while len(picked) < min(a.count, len(cases)):
+            picked.add(idx[r.below(len(cases))])
         cases = [cases[i] for i in sorted(picked)]
+    cases = special + cases
     hist = {}
     with open(a.out, "w") as out:
         for n, (f, fill, pre, A, B, pause, probes) in enumerate(cases):
@@ -72,7 +97,16 @@ def main():
             out.write("END\n")
             k = "%s|%s" % (A.split()[0], B.split()[0])
             hist[k] = hist.get(k, 0) + 1
-    json.dump(dict(schedules=len(cases), enumeration=total, op_pairs=hist), sys.stdout)
+    # overlapping lookups of a stored key (values whose Clone the harness can hold)
+    npar = 0
+    with open(a.out, "a") as out:
+        for f in allf:
+            if f["ret"] == 4 and f["fl"] != "t":
+                for x in range(3):
+                    out.write("PCASE p-%d-%d f%d %s %s -\n" % (a.seed, npar, f["idx"], f["fl"], f["pol"]))
+                    out.write("P %s\nA %s\nB %s\nEND\n" % (call(f, x), call(f, x), call(f, x)))
+                    npar += 1
+    json.dump(dict(schedules=len(cases) + npar, enumeration=total + npar, overlapping_lookups=npar, op_pairs=hist), sys.stdout)
 
 
 if __name__ == "__main__":
